@@ -4423,6 +4423,8 @@ class Cray_Pointer_Decl(Base):  # pylint: disable=invalid-name
             return None
         pointer_name = repmap(split_list[0]).strip()
         pointee_str = repmap(split_list[1]).strip()
+        if not pointee_str:
+            return None
         if pointee_str[-1] == ")":
             return Cray_Pointer_Name(pointer_name), Cray_Pointee_Decl(pointee_str)
         return Cray_Pointer_Name(pointer_name), Cray_Pointee_Name(pointee_str)
